@@ -246,6 +246,20 @@ func (l *vhList) assumeInvariant(lst any) {
 	}
 }
 
+// assumeUnique: every item carries its identifiers and no two items share them; the order is free (a
+// full replacement stores the items in the order given).
+func (l *vhList) assumeUnique(lst any) {
+	n := l.Len(lst)
+	for i := 0; i < n; i++ {
+		verifrt.Assume(l.hasAllKeys(l.At(lst, i)))
+	}
+	for i := 0; i < n; i++ {
+		for j := i + 1; j < n; j++ {
+			verifrt.Assume(verifrt.Not(l.keyEq(l.At(lst, i), l.At(lst, j))))
+		}
+	}
+}
+
 // checkInvariant asserts the same on a result slice.
 func (l *vhList) checkInvariant(prefix string, res any) {
 	n := l.ResLen(res)
